@@ -55,6 +55,7 @@ MENU_STEPS = [
     step_req("s1", ["a"], ["b"], res={"r": 1}),
     step_req("s2", ["b"], ["c"], res={"q": 1}),
     step_req("s3", ["a"], ["d/c"], need=34),
+    step_req("s3", ["c"], ["b"]),
 ]
 MENU_AMEND = [
     ("amend_step", "$job", ["b"], [], [], []),
